@@ -322,7 +322,8 @@ def expandFts2 (fuel : Nat) (mnode : KVs) : FR KVs :=
   | none => .ok mnode
   | some (.map aliases) => do
     let f : ASt → Y → FR (Y × ASt) := fun st y => resolveVal false fuel { st with aset := [] } y
-    let (m1, _) ← overSlots2 f ⟨aliases, [], []⟩ mnode
+    let (m1, st1) ← overSlots2 f ⟨aliases, [], []⟩ mnode
+    let _ ← resolveAllAliases false fuel (kvKeys st1.aliases) st1
     let m2 := kvErase "type-aliases" m1
     let (m3, _) ← overSlots2 (stateless (inheritVal false fuel)) () m2
     .ok m3
